@@ -25,8 +25,14 @@ PROPS = {
     "C11": "harness.corr_shuffle",
     "C20": "harness.corr_digraph",
     "C01": "harness.corr_c01",
+    "C02": "harness.corr_c02",
+    "C03": "harness.corr_c03",
+    "C04": "harness.corr_c04",
     "C05": "harness.corr_c05",
     "C07": "harness.corr_channel",
+    "C12": "harness.corr_c12",
+    "C13": "harness.corr_c13",
+    "C16": "harness.corr_c16",
     "C09": "harness.corr_suites",
 }
 
@@ -85,7 +91,11 @@ def run_check(prop, tier, seed, replay=None):
         # ---- known findings ----------------------------------------------------------------
         known = common.load_known()
         mine = [k for k in known.get("findings", []) if k["property"] == prop]
-        known_sigs = {k["signature"]: k for k in mine}
+        known_sigs = {}
+        for k in mine:
+            sigs = k["signature"] if isinstance(k["signature"], list) else [k["signature"]]
+            for sg in sigs:
+                known_sigs[sg] = k
         probes = getattr(mod, "KNOWN_PROBES", {})
         if replay is None and ctx.driver is not None:
             for k in mine:
